@@ -10,6 +10,7 @@ import PlatypusModel.Model.Grid
 import PlatypusModel.Model.Run
 import PlatypusModel.Model.Survival
 import PlatypusModel.Model.Machine
+import PlatypusModel.Model.Parallel
 open Wire Platypus
 
 namespace Ops
@@ -317,8 +318,38 @@ def opsMachine (op : String) : Option (P String) :=
       pure s!"{showList toString r.objs} {showList toString r.cons} {r.cv} {if r.feasible then 1 else 0} {if validVals w.types vals then 1 else 0}"
   | _ => none
 
+def opsParallel (op : String) : Option (P String) :=
+  match op with
+  | "chunks" => some do
+      let n ← int; let k ← nat
+      pure ("k " ++ showNats ((chunks n (List.range k)).map (·.length)))
+  | "futures" => some do
+      let k ← nat; let order ← list nat
+      let r := collect (completeAll (fun (j : Nat) => 3 * j + 1) (List.range k) order)
+      pure (match r with | some l => "f " ++ showNats l | none => "incomplete")
+  | "mpi" => some do
+      let size ← nat; let lb ← bool; let ntasks ← nat
+      let acts ← list (do
+        match (← tok) with
+        | "w" => do let w ← nat; pure (Action.worker w)
+        | "m" => do let w ← nat; pure (Action.master w)
+        | _ => throw "bad-op")
+      let tasks := List.range ntasks
+      let f := fun (t : Nat) => 3 * t + 1
+      let rec go (c : MCfg Nat Nat) (as : List Action) (i : Nat) : String :=
+        match as with
+        | [] => s!"{repr c.phase} " ++ " ".intercalate (c.results.map fun | some r => toString r | none => "_")
+        | a :: rest => match mpiStep f size tasks c a with
+          | some c' => go c' rest (i + 1)
+          | none => s!"not-enabled {i}"
+      pure (go (mpiInit size lb tasks) acts 0)
+  | "filing" => some do
+      let jobs ← list (do let a ← tok; let p ← tok; let r ← nat; pure ({ algorithm := a, problem := p, result := r } : JobResult Nat))
+      pure ("g " ++ " ".intercalate ((fileResults jobs).flatMap fun (a, ps) => ps.map fun (p, rs) => s!"{a}/{p}:{showIds rs}"))
+  | _ => none
+
 def dispatch (op : String) (args : List String) : Except String String :=
-  match (opsGray op <|> opsDominance op <|> opsConstraint op <|> opsEps op <|> opsSorting op <|> opsGrid op <|> opsRun op <|> opsSurvival op <|> opsMachine op <|> OpsOperators.opsOperators op) with
+  match (opsGray op <|> opsDominance op <|> opsConstraint op <|> opsEps op <|> opsSorting op <|> opsGrid op <|> opsRun op <|> opsSurvival op <|> opsMachine op <|> OpsOperators.opsOperators op <|> opsParallel op) with
   | some p => Wire.run p args
   | none => .error "bad-op"
 
